@@ -85,10 +85,17 @@ def insByStage (b : BEntry) : List BEntry → List BEntry
 
 def sortByStage (bs : List BEntry) : List BEntry := bs.foldr insByStage []
 
-/-- the per-budget loop of `checkNormalOrELIPProposal` -/
-def budgetLoop : Nat → List BEntry → Option String
-  | _, [] => none
-  | st, b :: t => if b.stage ≠ st then some "shape" else if b.amount < 0 then some "negamount" else budgetLoop (st + 1) t
+/-- largest `Fixed64` (int64) value -/
+def maxI64 : Int := 9223372036854775807
+
+/-- the per-budget loop of `checkNormalOrELIPProposal`; `sum` is the running Fixed64 total, a total
+    that does not fit is rejected (the overflow guard of the `fix:` commit for C29) -/
+def budgetLoop : Nat → Int → List BEntry → Option String
+  | _, _, [] => none
+  | st, sum, b :: t =>
+    if b.stage ≠ st then some "shape" else if b.amount < 0 then some "negamount"
+    else if sum + b.amount > maxI64 then some "overflow"
+    else budgetLoop (st + 1) (sum + b.amount) t
 
 def count (p : BEntry → Bool) (bs : List BEntry) : Nat := (bs.filter p).length
 
@@ -102,7 +109,7 @@ def checkPropose (s0 : State) (acc : Int) (bs0 : List BEntry) : Option String :=
     if b0.typ = .imprest ∧ b0.stage ≠ 0 then some "shape"
     else if b0.typ ≠ .imprest ∧ b0.stage ≠ 1 then some "shape"
     else if (bs.getLast?.map (·.typ)) ≠ some .final then some "shape"
-    else match budgetLoop b0.stage bs with
+    else match budgetLoop b0.stage 0 bs with
       | some e => some e
       | none =>
         if count (·.typ = .imprest) bs > 1 then some "shape"
@@ -174,7 +181,7 @@ def setVote (m : Nat) (a : Bool) : List (Nat × Bool) → List (Nat × Bool)
   | [] => [(m, a)]
   | (m', a') :: t => if m' = m then (m, a) :: t else (m', a') :: setVote m a t
 
-def propStep (h : Nat) (p0 : Prop') : Tx → Prop' → Prop'
+def propStep (_h : Nat) (p0 : Prop') : Tx → Prop' → Prop'
   | .review _ m a, p => { p with votes := setVote m a p.votes }
   | .rejvotes _ amt, p => { p with reject := amt }
   | .track _ k stage, p =>
